@@ -884,6 +884,19 @@ Proof. split; vm_compute; reflexivity. Qed.
 Lemma define_in_ctx_differs : differs faithful h_define_in_ctx = true ∧ differs repaired h_define_in_ctx = false.
 Proof. split; vm_compute; reflexivity. Qed.
 
+(** no switch for this one: a definition under FRESH keys gives the old spelling [dam] (deca+meter)
+    the earlier reading deci+am; the dimensionality memo is keyed by the spelling *)
+Definition h_shadow : list op := [ODim (us "dam"); ODefine am; ODim (us "dam")].
+Lemma shadow_differs :
+  differs faithful h_shadow = true ∧ differs repaired h_shadow = true ∧
+  stableb default_reg (add_unit_def default_reg am) {[ "dam" := tt ]} = false.
+Proof. split; [vm_compute; reflexivity|]. split; vm_compute; reflexivity. Qed.
+Lemma am_fresh : fresh_def default_reg am.
+Proof.
+  assert (A : r_units default_reg !! "am" = None) by (vm_compute; reflexivity).
+  split; [exact A|]. split; [intros s; discriminate | intros a Ha; inversion Ha].
+Qed.
+
 (** each defect is carried by its own switch: one quirk on, all others off *)
 Definition only_F3 := QK true false false false false false false.
 Definition only_F7 := QK false true false false false false false.
